@@ -1,0 +1,94 @@
+//go:build verif
+
+package parser
+
+// Machine-checked contracts for the parser (comment-only; compiled only with -tags verif).
+
+//@ props C08
+
+//@ pred PInv(p *Parser) := 0 <= p.peekCount && p.peekCount <= 1 && p.input == strmInput && p.lexer != nil
+//@     && (p.peekCount == 1 ==> TokOK(p.buffer[0]) && p.buffer[0].Type == strmLastT)
+//@ pred Ready(p *Parser) := !strmDone || p.peekCount > 0
+//@ pred avail(p *Parser) := strmLeft + p.peekCount
+
+// errmsg of a boxed illegalToken is what (illegalToken).Error returns (dynamic dispatch and
+// the fmt.Sprintf format strings are trusted): it prints encountered.Line and the quoted line.
+//@ axiom errmsg_illegalToken: forall e error :: {errmsg(e)} typeIs(e, parser.illegalToken) ==> errmsg(e) == fmtIllegalToken(unbox(e, parser.illegalToken).encountered.Type, unbox(e, parser.illegalToken).encountered.Value, unbox(e, parser.illegalToken).encountered.Line, unbox(e, parser.illegalToken).line, len(unbox(e, parser.illegalToken).expected))
+
+//@ func (*Parser).next
+//@ requires PInv(p) && SInv() && Ready(p)
+//@ modifies p.peekCount, p.buffer, strmLeft, strmDone, strmExp, strmLastT
+//@ ensures PInv(p) && SInv() && p.peekCount == 0 && result == p.buffer[0] && TokOK(result) && result.Type == strmLastT
+//@ ensures avail(p) == old(avail(p)) - 1
+//@ ensures old(p.peekCount) > 0 ==> strmDone == old(strmDone) && strmExp == old(strmExp) && result == old(p.buffer[0])
+//@ ensures old(p.peekCount) == 0 ==> strmDone == (result.Type == token.EOF || result.Type == token.ERROR) && expOK(old(strmExp), result.Type) && strmExp == expNext(old(strmExp), result.Type)
+
+//@ func (*Parser).backup
+//@ requires PInv(p) && p.peekCount == 0 && TokOK(p.buffer[0]) && p.buffer[0].Type == strmLastT
+//@ modifies p.peekCount
+//@ ensures PInv(p) && p.peekCount == 1
+
+//@ func (*Parser).getLine
+//@ requires p.input == strmInput && (token.Line == 0 || (1 <= token.Line && token.Line <= nlines(p.input)))
+//@ ensures token.Line >= 1 ==> result == lineText(p.input, token.Line)
+//@ loop 0: invariant 0 <= $i && len(lines) == $i && $i <= nlines(p.input)
+//@ loop 0: invariant forall k int :: {lines[k]} 0 <= k && k < $i ==> lines[k] == trimSpace(splitPiece(p.input, "\n", k))
+//@ loop 0: decreases nlines(p.input) - $i
+
+//@ func (*Parser).expect
+//@ requires PInv(p) && SInv() && Ready(p)
+//@ modifies p.peekCount, p.buffer, strmLeft, strmDone, strmExp, strmLastT
+//@ ensures PInv(p) && SInv() && ErrOK(result) && avail(p) < old(avail(p))
+//@ ensures result == nil ==> p.peekCount == 0 && strmLastT == expected && p.buffer[0].Type == expected && TokOK(p.buffer[0]) && (expected != token.EOF && expected != token.ERROR ==> !strmDone)
+
+//@ func (*Parser).parseFunction
+//@ requires PInv(p) && SInv() && Ready(p)
+//@ modifies p.peekCount, p.buffer, strmLeft, strmDone, strmExp, strmLastT
+//@ ensures PInv(p) && SInv() && ErrOK(result1) && avail(p) <= old(avail(p))
+//@ ensures result1 == nil ==> !strmDone && p.peekCount == 0
+//@ loop 0: invariant PInv(p) && SInv() && p.peekCount == 0 && TokOK(next) && next.Type == strmLastT && avail(p) <= old(avail(p))
+//@ loop 0: decreases avail(p)
+
+//@ func (*Parser).parseAssign
+//@ requires PInv(p) && SInv() && Ready(p)
+//@ modifies p.peekCount, p.buffer, strmLeft, strmDone, strmExp, strmLastT
+//@ ensures PInv(p) && SInv() && ErrOK(result1) && avail(p) <= old(avail(p))
+//@ ensures result1 == nil ==> Ready(p)
+
+//@ func (*Parser).parseTaskDependencies
+//@ requires PInv(p) && SInv() && Ready(p)
+//@ modifies p.peekCount, p.buffer, strmLeft, strmDone, strmExp, strmLastT
+//@ ensures PInv(p) && SInv() && ErrOK(result1) && avail(p) <= old(avail(p))
+//@ ensures result1 == nil ==> !strmDone && p.peekCount == 0
+//@ loop 0: invariant PInv(p) && SInv() && p.peekCount == 0 && TokOK(next) && next.Type == strmLastT && avail(p) <= old(avail(p))
+//@ loop 0: decreases avail(p)
+
+//@ func (*Parser).parseTaskOutputs
+//@ requires PInv(p) && SInv() && Ready(p)
+//@ modifies p.peekCount, p.buffer, strmLeft, strmDone, strmExp, strmLastT
+//@ ensures PInv(p) && SInv() && avail(p) <= old(avail(p))
+//@ ensures [located] ErrOK(result1)
+//@ ensures result1 == nil ==> Ready(p)
+//@ loop 0: invariant PInv(p) && SInv() && p.peekCount == 0 && TokOK(tok) && tok.Type == strmLastT && TokOK(next) && avail(p) <= old(avail(p))
+//@ loop 0: decreases avail(p)
+
+//@ func (*Parser).parseTaskCommands
+//@ requires PInv(p) && SInv() && !strmDone && p.peekCount == 0 && strmExp == 3
+//@ modifies p.peekCount, p.buffer, strmLeft, strmDone, strmExp, strmLastT
+//@ ensures PInv(p) && SInv() && ErrOK(result1) && avail(p) <= old(avail(p))
+//@ ensures result1 == nil ==> !strmDone && p.peekCount == 0
+//@ loop 0: invariant PInv(p) && SInv() && p.peekCount == 0 && !strmDone && strmExp == 3 && avail(p) <= old(avail(p))
+//@ loop 0: decreases avail(p)
+
+//@ func (*Parser).parseTask
+//@ requires PInv(p) && SInv() && !strmDone && p.peekCount == 0 && strmLastT == token.TASK
+//@ modifies p.peekCount, p.buffer, strmLeft, strmDone, strmExp, strmLastT
+//@ ensures PInv(p) && SInv() && ErrOK(result1) && avail(p) <= old(avail(p))
+//@ ensures result1 == nil ==> Ready(p)
+
+//@ func (*Parser).Parse
+//@ requires PInv(p) && SInv() && !strmDone && p.peekCount == 0
+//@ modifies p.peekCount, p.buffer, strmLeft, strmDone, strmExp, strmLastT
+//@ ensures [located] ErrOK(result1)
+//@ loop 0: invariant PInv(p) && SInv() && p.peekCount == 0 && TokOK(next) && next.Type == strmLastT
+//@ loop 0: decreases avail(p)
